@@ -41,13 +41,15 @@ LTREE_MAXIMUM_SIZE = 65536
 '[0-9A-Za-z!#$%&\'*+.^_`|~-]+/([0-9A-Za-z!#$%&\'*+.^_`|~-]+);[ \\t]*[0-9A-Za-z!#$%&\'*+.^_`|~-]+=(?:[0-9A-Za-z!#$%&\'*+.^_`|~-]+|"(?:[^"\\\\]|\\.)*");?[ \\t]*([0-9A-Za-z!#$%&\'*+.^_`|~-]+=(?:[0-9A-Za-z!#$%&\'*+.^_`|~-]+|"(?:[^"\\\\]|\\.)*");?[ \\t]*)*'
 
 def _gen_mime_type_pattern(strict, with_params):
+    # these patterns are published as xs:pattern facets as well: XML Schema regular
+    # expressions have no non-capturing groups, so plain groups are used.
     ows = "[ \\t]*"  # Optional WhiteSpace
     token = "[0-9A-Za-z!#$%&'*+.^_`|~-]+"
-    quotedString = "\"(?:[^\"\\\\]|\\.)*\""
+    quotedString = "\"([^\"\\\\]|\\.)*\""
     if strict:
         main_type = "(" \
                 "application|audio|font|example|image|message|model|multipart" \
-                "|text|video|x-(?:" + token + ")" \
+                "|text|video|x-(" + token + ")" \
             ")"
 
     else:
@@ -56,7 +58,7 @@ def _gen_mime_type_pattern(strict, with_params):
     if not with_params:
         return main_type + "/" + "(" + token + ")"
 
-    param = token + "=" + "(?:" + token + "|" + quotedString + ");?" + ows
+    param = token + "=" + "(" + token + "|" + quotedString + ");?" + ows
     params = \
         "(" + ";" \
              + "(" + ows + param + "(" + param + ")*" + ")?" \
